@@ -1,0 +1,55 @@
+//! verification hook: snapshot of a `UdpProtocol` endpoint (child module, read-only)
+use super::{Instant, UdpProtocol};
+use crate::verif::{status_pairs, EndpointSnap};
+use crate::{Config, NULL_FRAME};
+
+fn age(now: Instant, t: Instant) -> i64 {
+    if now >= t {
+        now.duration_since(t).as_millis() as i64
+    } else {
+        -(t.duration_since(now).as_millis() as i64)
+    }
+}
+
+impl<T: Config> UdpProtocol<T> {
+    pub(crate) fn verif_snap(&self) -> EndpointSnap {
+        let now = Instant::now();
+        let mut pending_checksums: Vec<_> = self.pending_checksums.keys().copied().collect();
+        pending_checksums.sort_unstable();
+        EndpointSnap {
+            addr: format!("{:?}", self.peer_addr),
+            handles: self.handles.clone(),
+            state: format!("{:?}", self.state),
+            sync_remaining: self.sync_remaining_roundtrips,
+            nonces: self.sync_random_requests.len(),
+            notify_sent: self.disconnect_notify_sent,
+            event_sent: self.disconnect_event_sent,
+            magic: self.magic,
+            remote_magic: self.remote_magic,
+            peer_status: status_pairs(&self.peer_connect_status),
+            pending_first: self
+                .pending_output
+                .front()
+                .map(|i| i.frame)
+                .unwrap_or(NULL_FRAME),
+            pending_len: self.pending_output.len(),
+            last_acked: self.last_acked_input.frame,
+            last_recv: self.last_recv_frame(),
+            recv_min: self.recv_inputs.keys().copied().min().unwrap_or(NULL_FRAME),
+            recv_len: self.recv_inputs.len(),
+            local_adv: self.local_frame_advantage,
+            remote_adv: self.remote_frame_advantage,
+            avg_adv: self.time_sync_layer.average_frame_advantage(),
+            rtt: self.round_trip_time,
+            age_send: age(now, self.last_send_time),
+            age_recv: age(now, self.last_recv_time),
+            age_input_recv: age(now, self.running_last_input_recv),
+            age_quality: age(now, self.running_last_quality_report),
+            age_sync_req: age(now, self.last_sync_request_time),
+            shutdown_in: -age(now, self.shutdown_timeout),
+            pending_checksums,
+            send_queue: self.send_queue.len(),
+            event_queue: self.event_queue.len(),
+        }
+    }
+}
